@@ -170,6 +170,20 @@ SHAPES = [
     ([12001, 204004, 31021, 224000, 101001, 31031, 8023, 204000, 224255], {31031: [0]}, 'f11'),
     ([12001, 204004, 31021, 225000, 101001, 31031, 8024, 204000, 225255], {31031: [0]}, 'f11'),
     ([12001, 204004, 31021, 222000, 101001, 31031, 33007, 204000], {31031: [0]}, 'assoc-over-qa'),
+    # templates that END with an operator still in force (nothing cancels it before the next subset starts): whatever the
+    # wiring pass keeps for 204 / 221 / 222-225 must not survive into the next subset (seeded change C09-8); always >= 2 subsets
+    ([12001, 204004, 31021, 12001], {}, 'open-end'),
+    ([204002, 31021, 1001, 204003, 31021, 12001], {}, 'open-end'),
+    ([1001, 221003, 12001, 1002], {}, 'open-end'),
+    ([12001, 221002, 10004], {}, 'open-end'),
+    ([12001, 33007, 1001, 222000, 101002, 31031], {31031: [0, 1]}, 'open-end'),
+    ([33007, 12001, 222000, 236000, 101002, 31031], {31031: [1, 0]}, 'open-end'),
+    ([12001, 224000, 101001, 31031, 8023], {31031: [0]}, 'open-end'),
+    ([12001, 225000, 101001, 31031, 8024], {31031: [0]}, 'open-end'),
+    ([12001, 201130, 12001, 202129, 11001], {}, 'open-end'),
+    ([1015, 208004, 1015, 207001, 12001], {}, 'open-end'),
+    ([203012, 12001, 203255, 12001], {}, 'open-end'),
+    ([12001, 206008, 63255, 204004, 31021, 11001], {}, 'open-end'),
 ]
 
 
@@ -510,7 +524,7 @@ def run_shapes(ctx, drv, treq):
     items = []
     for ids, forced, tag in shapes:
         for comp in (False, True):
-            n = rng.randint(1, 3)
+            n = rng.randint(2, 4) if tag == 'open-end' else rng.randint(1, 3)
             b, vals = build_message(drv, treq, ids, forced, n, comp, rng)
             if b is None:
                 ctx.count('shape-not-built:' + tag)
